@@ -156,9 +156,11 @@ class Formatter(FormatterInterface):
     def _(self, oper: L.Not | L.Neg) -> str:
         """Format a unary operation."""
         arg = self(oper.arg)
+        # Python spells logical negation "not" ("!" is a syntax error)
+        op = "not " if isinstance(oper, L.Not) else oper.op
         if oper.arg.precedence >= oper.precedence:
-            return f"{oper.op}({arg})"
-        return f"{oper.op}{arg}"
+            return f"{op}({arg})"
+        return f"{op}{arg}"
 
     @__call__.register(L.And)
     @__call__.register(L.Or)
